@@ -168,8 +168,32 @@ def check_groups(case):
         # group columns by the values of one key row
         k = keys[0]
         m = n
-        if k.dtype == object:
-            raise Discard('object key row consolidates the frame')
+        if len(keys) > 1 or k.dtype == object:
+            # several key rows (or an object key row): the rows consolidate to an object frame; columns are identified by label
+            nk = len(keys)
+            arr = np.empty((nk + 1, m), dtype=object)
+            for q, kk in enumerate(keys):
+                arr[q, :] = arr_list(kk)
+            arr[nk, :] = list(range(m))
+            names = ['key%d' % q for q in range(nk)]
+            f = sf.Frame(gen.freeze(arr), index=names + ['uid'], columns=['c%d' % j for j in range(m)])
+            gkey = names if nk > 1 else names[0]
+            r = lib(lambda: list(f.iter_group_items(gkey, axis=1)))
+            if isinstance(r, Raised):
+                raise Failure('raised:%s' % r.cls, 'iter_group_items(%r, axis=1) raised %r' % (gkey, r.exc), r.where)
+            groups = []
+            for gk, g in r:
+                members = [int(str(c)[1:]) for c in obs.labels_of(g.columns)]
+                if obs.labels_of(g.index) != obs.labels_of(f.index):
+                    raise Failure('labels', 'axis-1 group %r index %s' % (gk, short(obs.labels_of(g.index))))
+                for q2, p in enumerate(members):
+                    for q in range(nk):
+                        if not eq(g.values[q][q2], arr_list(keys[q])[p]):
+                            raise Failure('value', 'axis-1 group %r column c%d key cell %r' % (gk, p, g.values[q][q2]))
+                groups.append((tuple(gk) if nk > 1 else gk, members))
+            key_of = (lambda p: tuple(arr_list(kk)[p] for kk in keys)) if nk > 1 else (lambda p: arr_list(k)[p])
+            _partition_check(groups, m, key_of, None, 'Frame.iter_group_items(%r, axis=1)' % (gkey,))
+            return {'nt': m >= 2 and len(groups) >= 1, 'cls': ['g:frame_axis1', 'axis1-object-rows', 'nk:%d' % nk]}
         rows = [k, (np.arange(m) * 1000 + 7).astype(k.dtype) if k.dtype.kind in 'if' else None]
         if rows[1] is None:
             # keep a typed key row above an int uid row: two 1-row frames cannot share a dtype, so use column labels as ids
@@ -273,7 +297,7 @@ def check_groups(case):
 def window_cases(draw):
     n = draw(st.sampled_from([5, 4, 6, 3, 2, 1, 0, 7, 8]))
     return {'n': n, 'size': draw(st.integers(1, 4)), 'step': draw(st.integers(0, 3)), 'sized': draw(st.booleans()),
-            'label_shift': draw(st.integers(-3, 2)), 'start_shift': draw(st.integers(-2, 2)), 'inc': draw(st.integers(0, 2)),
+            'label_shift': draw(st.integers(-3, 2)), 'start_shift': draw(st.integers(-2, 2)), 'inc': draw(st.sampled_from([0, 1, -1, 2, -2])),
             'target': draw(st.sampled_from(['series', 'frame0', 'frame1', 'series_array', 'frame0_array'])), 'kind': draw(st.sampled_from(['int', 'str']))}
 
 
